@@ -50,7 +50,7 @@ MERGE_MUTATIONS = [{"mutation": "LoserFnMerges", "next": "Next13"}, {"mutation":
                    {"mutation": "PruneAlways"}, {"mutation": "PriorityGE"}]
 MERGE_EXH = {"quick": [("C13_Docs", 2, 2, "C13_Range"), ("C13_Docs3", 1, 3, "C13_Range3")],
              "thorough": [("C13_Docs", 1, 2, "C13_Range"), ("C13_Docs3", 1, 4, "C13_Range3")]}
-N_RANDOM = {"quick": {"func": 2000, "merge": 1500}, "thorough": {"func": 30000, "merge": 25000}}
+N_RANDOM = {"quick": {"func": 1500, "merge": 1000}, "thorough": {"func": 30000, "merge": 25000}}
 
 ASSUME = ["CPython 3.12.1 and PyYAML as installed in /venv; awesomeyaml imported from the tree named by AY_REPO (default /repo)",
           "Python's binder (inspect.signature(f).bind, the call f(*a, **k)) and functools.partial are the trusted reference for 'as Python would'",
